@@ -4,6 +4,9 @@ package pipeline
 
 import (
 	"errors"
+	"math/rand"
+	"net/url"
+	"path"
 
 	"github.com/buildkite/interpolate"
 )
@@ -95,6 +98,82 @@ func vpModelInterpolate(env interpolate.Env, s string) (string, error) {
 	return out, nil
 }
 
+var vpErrURL = errors.New("url: parse error")
+
+func vpURLAlphabet(c byte) bool {
+	return (c >= 'a' && c <= 'z') || (c >= 'A' && c <= 'Z') || (c >= '0' && c <= '9') ||
+		c == '.' || c == '_' || c == '/' || c == '#' || c == ':' || c == '@' || c == '\\' || c == '+' || c == '-'
+}
+
+// vpModelURLParse models net/url.Parse for strings over
+// [A-Za-z0-9._/#:@\\+-] that do not start with '/': fragment split at the
+// first '#', scheme iff ^[A-Za-z][A-Za-z0-9+.-]*: , error for a leading ':'
+// and for a colon in the first path segment, Path and Fragment verbatim
+// otherwise. With a scheme the model only promises "error, or a URL whose
+// Scheme is non-empty" (authority/opaque parsing is not modelled).
+func vpModelURLParse(raw string) (*url.URL, error) {
+	if !vpReMatch(`^[A-Za-z0-9._/#:@\\\\+\\-]*$`, raw) {
+		vpOutside("url.Parse model: byte outside the modelled alphabet")
+	}
+	if len(raw) > 0 && raw[0] == '/' {
+		vpOutside("url.Parse model: leading slash")
+	}
+	u, frag := raw, ""
+	for i := 0; i < len(raw); i++ {
+		if raw[i] == '#' {
+			u, frag = raw[:i], raw[i+1:]
+			break
+		}
+	}
+	// getScheme (whole-string predicates keep the symbolic execution from
+	// forking on every byte)
+	if len(u) > 0 && u[0] == ':' {
+		return nil, vpErrURL // missing protocol scheme
+	}
+	if vpReMatch(`^[A-Za-z][A-Za-z0-9+.\-]*:`, u) {
+		for i := 0; i < len(u); i++ {
+			if u[i] == ':' {
+				return &url.URL{Scheme: u[:i]}, nil // see contract above
+			}
+		}
+	}
+	// first path segment must not contain a colon
+	if vpReMatch(`^[^/]*:`, u) {
+		return nil, vpErrURL
+	}
+	return &url.URL{Path: u, Fragment: frag}, nil
+}
+
+// vpModelPathJoin models path.Join: the non-empty elements joined by "/",
+// exact when that string is already clean (no empty, "." or ".." segment, not
+// rooted); anything else is outside the model.
+func vpModelPathJoin(elems ...string) string {
+	joined := ""
+	for _, e := range elems {
+		if e == "" {
+			continue
+		}
+		if joined != "" {
+			joined += "/"
+		}
+		joined += e
+	}
+	if joined == "" {
+		return ""
+	}
+	start := 0
+	for i := 0; i <= len(joined); i++ {
+		if i == len(joined) || joined[i] == '/' {
+			seg := joined[start:i]
+			if seg == "" || seg == "." || seg == ".." {
+				vpOutside("path.Join model: result is not already clean")
+			}
+			start = i + 1
+		}
+	}
+	return joined
+}
+
 // ---- native validation of the models ----
 
 type vpMapEnv map[string]string
@@ -115,10 +194,72 @@ func vpEachString(alphabet string, maxLen int, f func(string)) {
 	rec(nil)
 }
 
+func vpCheckURL(s string, cases, outside, mism *int, first *string) {
+	if len(s) > 0 && s[0] == '/' {
+		return
+	}
+	var got *url.URL
+	var gerr error
+	if !vpTryModel(func() { got, gerr = vpModelURLParse(s) }) {
+		*outside++
+		return
+	}
+	want, werr := url.Parse(s)
+	*cases++
+	bad := false
+	switch {
+	case gerr != nil:
+		bad = werr == nil
+	case got.Scheme != "":
+		bad = werr == nil && want.Scheme == ""
+	default:
+		bad = werr != nil || want.Scheme != "" || want.Opaque != "" || want.Path != got.Path || want.Fragment != got.Fragment
+	}
+	if bad {
+		*mism++
+		if *first == "" {
+			*first = s
+		}
+	}
+}
+
 func init() {
+	vpRegisterModelCheck("urlparse", func() (cases, outside, mism int, first string) {
+		vpEachString("a1._/-#:@\\+B", vpValidateDepth(6), func(s string) { vpCheckURL(s, &cases, &outside, &mism, &first) })
+		rng := rand.New(rand.NewSource(1))
+		const full = "abcxyzABZ019._/#:@\\+-"
+		for i := 0; i < 300000; i++ {
+			n := rng.Intn(15)
+			b := make([]byte, n)
+			for j := range b {
+				b[j] = full[rng.Intn(len(full))]
+			}
+			vpCheckURL(string(b), &cases, &outside, &mism, &first)
+		}
+		return
+	})
+	vpRegisterModelCheck("pathjoin", func() (cases, outside, mism int, first string) {
+		vpEachString("a./-#", 5, func(a string) {
+			for _, b := range []string{"x", "a-buildkite-plugin#r/s", ".", "", "a/.."} {
+				var got string
+				if !vpTryModel(func() { got = vpModelPathJoin("github.com", a, b) }) {
+					outside++
+					continue
+				}
+				cases++
+				if want := path.Join("github.com", a, b); want != got {
+					mism++
+					if first == "" {
+						first = a + "|" + b
+					}
+				}
+			}
+		})
+		return
+	})
 	vpRegisterModelCheck("interpolate", func() (cases, outside, mism int, first string) {
 		env := vpMapEnv{"A": "x", "B": "", "a": "$B", "A1": "one", "A_": "u"}
-		vpEachString("$\\{}ABa_1(x", 6, func(s string) {
+		vpEachString("$\\{}ABa_1(x", vpValidateDepth(6), func(s string) {
 			var got string
 			var gerr error
 			if !vpTryModel(func() { got, gerr = vpModelInterpolate(env, s) }) {
